@@ -9,6 +9,7 @@
 -/
 import ClarabelProofs.Lemmas.Loop
 import ClarabelProofs.Props.C09
+import ClarabelProofs.Props.C04Full
 
 namespace Clarabel.C04
 open Clarabel Clarabel.Loop
